@@ -498,6 +498,15 @@ def Cat.next (c : Cat) (bs : List Bool) : Option (Cat × List Bool) :=
         if cnt = 0 then none else
         some ({ c with btype := t, count := cnt - 1, second := c.btype }, bs)
 
+/-- `n` block switches in a row (each block taken as used up at once): the `(type, count)` pairs read,
+appended to `acc` (reversed) -/
+def readSwitches : Nat → Cat → List Bool → List (Nat × Nat) → Option (List (Nat × Nat) × List Bool)
+  | 0, _, bs, acc => some (acc.reverse, bs)
+  | n + 1, c, bs, acc =>
+    match ({ c with count := 0 } : Cat).next bs with
+    | none => none
+    | some (c', bs') => readSwitches n c' bs' ((c'.btype, c'.count + 1) :: acc)
+
 /-- inverse move-to-front transform of §7.3 -/
 def inverseMtf (v : List Nat) : List Nat :=
   let rec go : List Nat → List Nat → List Nat → List Nat
